@@ -186,6 +186,17 @@ func (c *cache) BadMinUnguardedSet(k string, v int, ttl int64) {
 	c.store(k, entry{val: v, exp: c.clock.Now().Add(time.Duration(ttl) * time.Second)})
 }
 
+func (c *cache) BadKeepLaterSet(k string, v int, ttl int64) {
+	if c.maxTTL > 0 && ttl > c.maxTTL {
+		ttl = c.maxTTL
+	}
+	exp := c.clock.Now().Add(time.Duration(ttl) * time.Second)
+	if old, ok := c.lookup(k); ok && old.exp.After(exp) {
+		exp = old.exp
+	}
+	c.store(k, entry{val: v, exp: exp})
+}
+
 func (c *cache) BadOrCapSet(k string, v int, ttl int64) {
 	if c.maxTTL > 0 || ttl > c.maxTTL {
 		ttl = c.maxTTL
